@@ -1,15 +1,17 @@
-#!/usr/bin/env python3
+#!/venv/bin/python
 """Rebuild MANIFEST.json from the plugins present under harness/props/ (claimed) and
 harness/not_applicable.json (not claimed, with reasons)."""
 import os, sys, json, importlib
 ROOT = os.path.dirname(os.path.dirname(os.path.abspath(__file__)))
 sys.path.insert(0, os.path.join(ROOT, 'harness'))
+import lib
+lib.setup_repo_path()
 ids = [json.loads(l)['id'] for l in open(os.path.join(ROOT, 'properties.jsonl'))]
 na = json.load(open(os.path.join(ROOT, 'harness', 'not_applicable.json')))
 checks, notapp = [], []
 for i in ids:
     p = os.path.join(ROOT, 'harness', 'props', i.lower() + '.py')
-    if os.path.exists(p) and i not in na.get('unclaimed', {}):
+    if os.path.exists(p) and i in na.get('claimed', []):
         P = importlib.import_module('props.' + i.lower())
         checks.append({
             'property_id': i,
